@@ -124,7 +124,7 @@ def units(tier, seed):
             out.append({"kind": "import", "sid": "table" if fam == "tables" else "list", "vocab": fam, "n": n, "block": b,
                         "nblocks": nbf, "name": f"import/family/{fam}<={n}#{b}/{nbf}"})
     for cid in ("ctx_bq", "ctx_li", "ctx_bq_any", "ctx_alt", "ctx_grp", "ctx_gp"):
-        out.append({"kind": "context", "sid": cid, "n": 5 if q else 6, "name": f"context/{cid}"})
+        out.append({"kind": "context", "sid": cid, "n": 6 if q else 7, "name": f"context/{cid}"})
     exp = [
         {"sid": "basic", "family": "blocks", "size": 6 if q else 7},
         {"sid": "basic", "family": "html_inline", "size": 4 if q else 5, "blocks": 16},
